@@ -6,6 +6,7 @@ import LiquidModel.Drv.C06
 import LiquidModel.Drv.C07
 import LiquidModel.Drv.C18
 import LiquidModel.Drv.C16
+import LiquidModel.Drv.C15
 namespace Liquid.Drv
 
 /-- op name ↦ handler; each `Drv/*.lean` contributes its ops here. -/
@@ -24,6 +25,7 @@ def dispatch (op : String) : Option (List String → String) :=
   | "c16utf1" => some (c16UtfOp false)
   | "c16fold" => some c16FoldOp
   | "c16f" => some c16FilterOp
+  | "c15" => some c15Op
   | _ => none
 
 end Liquid.Drv
